@@ -205,6 +205,7 @@ type modEntry struct {
 type wrEntry struct {
 	T string `json:"t"`
 	R string `json:"r"`
+	D bool   `json:"d"` // the tuple is deleted rather than written
 }
 type authzCallEv struct {
 	E      string    `json:"e"`
@@ -250,15 +251,22 @@ var storeMethods = []string{"ReadAuthorizationModel", "ReadAuthorizationModels",
 
 // write shapes: which (type, relation) pairs the request's writes and deletes touch
 var writeShapes = [][]wrEntry{
-	{{"alpha", "member"}},
-	{{"alpha", "member"}, {"alpha", "extra"}},
-	{{"beta", "member"}},
-	{{"beta", "extra"}},                      // relation-level module m0
-	{{"beta", "member"}, {"beta", "extra"}},  // m1 and m0
-	{{"alpha", "member"}, {"beta", "member"}}, // two modules
-	{{"plain", "member"}},
-	{{"alpha", "member"}, {"plain", "member"}}, // module + unmoduled
-	{{"plain", "extra"}, {"alpha", "extra"}},
+	{{"alpha", "member", false}},
+	{{"alpha", "member", false}, {"alpha", "extra", false}},
+	{{"beta", "member", false}},
+	{{"beta", "extra", false}},                            // relation-level module m0
+	{{"beta", "member", false}, {"beta", "extra", false}},  // m1 and m0
+	{{"alpha", "member", false}, {"beta", "member", false}}, // two modules
+	{{"plain", "member", false}},
+	{{"alpha", "member", false}, {"plain", "member", false}}, // module + unmoduled
+	{{"plain", "extra", false}, {"alpha", "extra", false}},
+	// writes and deletes in different modules / outside any module
+	{{"alpha", "member", false}, {"plain", "member", true}},
+	{{"plain", "member", false}, {"alpha", "member", true}},
+	{{"alpha", "member", true}},
+	{{"alpha", "member", false}, {"beta", "member", true}},
+	{{"alpha", "member", true}, {"alpha", "extra", false}},
+	{{"plain", "member", true}},
 }
 
 func C26(run *Run) {
@@ -444,9 +452,9 @@ func C26(run *Run) {
 			}
 		case "Write":
 			req := &openfgav1.WriteRequest{StoreId: store}
-			for i, w := range wr {
+			for _, w := range wr {
 				obj := fmt.Sprintf("%s:w%d", w.T, r.Intn(1000000))
-				if i%2 == 1 && r.Intn(2) == 0 {
+				if w.D {
 					if req.Deletes == nil {
 						req.Deletes = &openfgav1.WriteRequestDeletes{}
 					}
